@@ -3,10 +3,16 @@
 # it breaks, reverts, and prints one line per change. usage: tools/all_mutants.sh [extra check args]
 HERE=$(cd "$(dirname "$0")/.." && pwd)
 for d in "$HERE"/seeded/*/; do
-  name=$(basename "$d")
+  name=$(basename "$d"); [ "$name" = controls ] && continue
   prop=$(python3 -c "import json,sys; print(json.load(open('$d/meta.json'))['property'])")
   patch="$d/patch.diff"; [ -f "$d/patch-on-current-tree.diff" ] && patch="$d/patch-on-current-tree.diff"
   git -C /repo apply --check "$patch" 2>/dev/null || { echo "$name: patch does not apply to the current tree (see meta.json)"; continue; }
   out=$("$HERE/tools/try_mutant.sh" "$patch" quick "$prop" -- "$@" 2>&1)
   echo "$name [$prop]: $(echo "$out" | grep -E '^== ' | sed 's/^== //') $(echo "$out" | grep -E '^violation|^Miri engine' | head -1 | cut -c1-110)"
+done
+# negative controls: behaviour-preserving refactors, every check must pass
+for d in "$HERE"/seeded/controls/*/; do
+  name=$(basename "$d")
+  out=$("$HERE/tools/try_mutant.sh" "$d/patch.diff" quick C07 C11 C12 C15 -- "$@" 2>&1)
+  echo "control $name: $(echo "$out" | grep -E '^== ' | sed 's/^== //; s/ quick: exit /=/' | tr '\n' ' ')"
 done
